@@ -126,6 +126,75 @@ func c50(c *Ctx) {
 			c.Expect(false, ci, st, "no-load-in-stats", "stats() loads a counter without clearing it atomically")
 		}
 	})
+	c.Ob("report-conservation", "R3", "snapshot: once a locality's counters or server-load samples have been read-and-cleared, every path to the end of that locality's visit stores the locality entry into the report, except paths on which the cleared value was tested to be zero (nothing cleared is dropped)", 4, func() {
+		st := c.fn(lrs, "PerClusterReporter.stats")
+		var loc *ssa.Function
+		for _, a := range st.AnonFuncs {
+			if len(callsIn(a, Callee(lrs, "rpcCountData.loadAndClearSucceeded"))) == 1 {
+				loc = a
+			}
+		}
+		if loc == nil {
+			panic(missingStep{"no per-locality closure reading the counters in stats()"})
+		}
+		fLS := c.field(lrs, "loadData", "localityStats")
+		insert := func(in ssa.Instruction) bool {
+			mu, ok := in.(*ssa.MapUpdate)
+			return ok && FieldLoad(fLS)(mu.Map)
+		}
+		c.Expect(len(instrsWhere(loc, insert)) == 1, nil, loc, "one-insertion", "expected exactly one insertion of the locality entry into the report")
+		for _, name := range []string{"loadAndClearSucceeded", "loadAndClearErrored", "loadAndClearIssued"} {
+			cm := Callee(lrs, "rpcCountData."+name)
+			call := one(c, name+" in the locality closure", callsIn(loc, cm))
+			q := pathQuery{Fn: loc, Starts: []ssa.Instruction{call}, Barrier: insert, Target: isReturn,
+				EdgeBlock: func(from, to *ssa.BasicBlock) bool {
+					_, ok := hasFact(edgeFacts(from, to), CmpInt(CallRes(cm, 0), token.EQL, 0))
+					return ok
+				}}
+			c.MustPass(name+"-value-reaches-report", q, call)
+		}
+		// server loads are cleared by the nested Range; nothing may skip the insertion afterwards
+		var rng ssa.CallInstruction
+		for _, ci := range callsIn(loc, CalleeX("sync", "Map.Range")) {
+			if cl := funcOfValue(ci.Common().Args[1]); cl != nil && len(callsIn(cl, Callee(lrs, "rpcLoadData.loadAndClear"))) == 1 {
+				rng = ci
+			}
+		}
+		if rng == nil {
+			panic(missingStep{"no nested Range that reads-and-clears the server loads"})
+		}
+		c.MustPass("cleared-server-loads-reach-report", pathQuery{Fn: loc, Starts: []ssa.Instruction{rng}, Barrier: insert, Target: isReturn}, rng)
+		// inside the nested closure: a cleared sample with count != 0 is stored
+		cl := funcOfValue(rng.Common().Args[1])
+		lc := one(c, "loadAndClear in the server-load closure", callsIn(cl, Callee(lrs, "rpcLoadData.loadAndClear")))
+		isMU := func(in ssa.Instruction) bool { _, ok := in.(*ssa.MapUpdate); return ok }
+		q := pathQuery{Fn: cl, Starts: []ssa.Instruction{lc}, Barrier: isMU, Target: isReturn,
+			EdgeBlock: func(from, to *ssa.BasicBlock) bool {
+				_, ok := hasFact(edgeFacts(from, to), CmpInt(CallRes(Callee(lrs, "rpcLoadData.loadAndClear"), 1), token.EQL, 0))
+				return ok
+			}}
+		c.MustPass("non-empty-sample-is-reported", q, lc)
+		// drops: a non-zero swapped value is added to the total
+		var dcl *ssa.Function
+		for _, a := range st.AnonFuncs {
+			if len(callsIn(a, CalleeX("sync/atomic", "SwapUint64"))) == 1 {
+				dcl = a
+			}
+		}
+		if dcl != nil {
+			sw := callsIn(dcl, CalleeX("sync/atomic", "SwapUint64"))[0]
+			fTD := c.field(lrs, "loadData", "totalDrops")
+			addTotal := func(in ssa.Instruction) bool { s, ok := in.(*ssa.Store); return ok && FieldAddrOf(fTD)(s.Addr) }
+			q := pathQuery{Fn: dcl, Starts: []ssa.Instruction{sw}, Barrier: addTotal, Target: isReturn,
+				EdgeBlock: func(from, to *ssa.BasicBlock) bool {
+					_, ok := hasFact(edgeFacts(from, to), CmpInt(CallRes(CalleeX("sync/atomic", "SwapUint64"), 0), token.EQL, 0))
+					return ok
+				}}
+			c.MustPass("non-zero-drops-reach-total", q, sw)
+		} else {
+			c.Expect(false, nil, st, "drops-closure", "no closure reading the drop counters")
+		}
+	})
 	c.Ob("events", "R12", "incr/decr accessors add +1/-1 to their own cell; CallStarted bumps in-progress and issued before every return; CallFinished (entry found) decrements in-progress and bumps exactly one of succeeded (err == nil) / errored (err != nil)", 9, func() {
 		acc := map[string]struct {
 			cell string
